@@ -17,8 +17,17 @@ func (pass *SchemaSetEntrypoint) Process(schemas []*ast.Schema) ([]*ast.Schema, 
 			continue
 		}
 
-		schema.EntryPoint = pass.EntryPoint
-		schema.EntryPointType = ast.NewRef(schema.Package, pass.EntryPoint)
+		// the entry point designates an object of the schema, found like the other
+		// transformations find their target: a name that designates nothing changes nothing
+		target := ObjectReference{Package: schema.Package, Object: pass.EntryPoint}
+		schema.Objects.Iterate(func(_ string, object ast.Object) {
+			if !target.Matches(object) {
+				return
+			}
+
+			schema.EntryPoint = object.Name
+			schema.EntryPointType = object.SelfRef.AsType()
+		})
 	}
 
 	return schemas, nil
